@@ -60,7 +60,7 @@ theorem applyAfter_refs (x : Nat) (w : World) (op : Nat) (a : After) (hn : (ids 
         all_goals first
           | exact ⟨by omega, by simp, by simp⟩
           | (refine ⟨?_, by simp, by simp⟩
-             have := refs_setObj_same x w o { o with cancelled := false } hn hg' rfl (by simp [objRef])
+             have := refs_setObj_same x w o { o with cancelled := false, cancelledRep := false } hn hg' rfl (by simp [objRef])
              omega)
           | (refine ⟨?_, by simp, by simp⟩
              have := refs_armTimer_le x w o op true hn hg'
@@ -147,7 +147,7 @@ theorem pollDispatch_refs (x : Nat) (w w' : World) (op : Nat) (any : Bool) (rest
           | (rename_i hc
              cases h
              simp only [Bool.and_eq_true, beq_iff_eq] at hc
-             have := setObj_refs x { w with pending := w.pending - 1 } o { o with evR := false, tstate := .ready } hn hg' rfl
+             have := setObj_refs x { w with pending := w.pending - 1 } o { o with evR := false, tstate := .ready, cancelledRep := false } hn hg' rfl
              simp only [refs, hst, frameRefs_cons, frameRef, setObj_posts] at this ⊢
              rw [this]
              have h0 := objRef_nonneg x o
@@ -327,7 +327,7 @@ theorem step_refs (x : Nat) (w w' : World) (e : Ev) (hn : (ids w.objs).Nodup) (h
       all_goals first
         | refs_frames
         | (cases h
-           have := setObj_refs_le x (unsetPending w o) o { o with evR := false, cancelled := true, tstate := .ready } hn hg' rfl
+           have := setObj_refs_le x (unsetPending w o) o { o with evR := false, cancelled := true, cancelledRep := true, tstate := .ready } hn hg' rfl
              (objRef_clear_le x o _ (Or.inl rfl) (Or.inr ⟨rfl, rfl⟩))
            simp only [refs, hst, frameRefs_cons, frameRef, entersOf, startsOf, rearmsOf, setObj_posts, unsetPending_posts,
              unsetPending_objs] at this ⊢
